@@ -50,11 +50,11 @@ def vec_summ(s):
     return np.column_stack([s2.sum(axis=1), s2.max(axis=1) * 0.5])
 
 
-def disc(*s, observed=None, infcut=None):
+def disc(*s, observed=None, infcut=None, dmag=1.0):
     d = np.abs(np.column_stack(s) - np.column_stack(observed)).sum(axis=1)
     if infcut is not None:
         d = np.where(d > infcut, np.inf, d)
-    return d
+    return d * dmag         # overall magnitude of the discrepancies (a unit), 1 unless the description says otherwise
 
 
 def model_desc(draw_hier=True):
@@ -68,6 +68,8 @@ def model_desc(draw_hier=True):
         'vec_summary': st.booleans(),
         'disc': st.sampled_from(['custom', 'custom', 'euclidean', 'cityblock']),
         'infcut': st.sampled_from([None, None, 1.5, 3.0]),
+        # unit of the custom discrepancy: uniformly tiny (1e-9) or large (1e9) discrepancies are as valid as those of order one
+        'dmag': st.sampled_from([1.0, 1.0, 1.0, 1e-9, 1e9]),
     })
 
 
@@ -101,7 +103,7 @@ def build(desc, name='verifmodel'):
         elfi.Summary(vec_summ, S, model=m, name='vs')
         extra.append('vs')
     if desc['disc'] == 'custom':
-        elfi.Discrepancy(partial(disc, infcut=desc.get('infcut')), *sums, model=m, name='d')
+        elfi.Discrepancy(partial(disc, infcut=desc.get('infcut'), dmag=float(desc.get('dmag', 1.0))), *sums, model=m, name='d')
     elif desc['disc'] == 'adaptive':
         elfi.AdaptiveDistance(*sums, model=m, name='d')
     else:
@@ -123,7 +125,7 @@ def recompute(desc, log):
         out['vs'] = vec_summ(simout)
     obs = tuple(np.zeros(1) for _ in range(w))
     if desc['disc'] == 'custom':
-        D = disc(*sums, observed=obs, infcut=desc.get('infcut'))
+        D = disc(*sums, observed=obs, infcut=desc.get('infcut'), dmag=float(desc.get('dmag', 1.0)))
     elif desc['disc'] == 'adaptive':
         X = np.column_stack(sums)
         D = np.sqrt((X ** 2).sum(axis=1))                 # first-stage distance: plain Euclidean to the zero observation
